@@ -195,6 +195,9 @@ def with_second(rng, spec):
             out.append(op)
             if op[0] in ("sleep", "put", "get", "raw") and rng.random() < 0.5:
                 out.append(["get2", "SYS", "MODELNAME"] if rng.random() < 0.3 else ["put2", "B", f"F{len(out)}", str(rng.randint(0, 9))])
+        if rng.random() < 0.4 and len(out) > 2:
+            # the second connection ends early (planned close) while the first one carries on: that is the second one's business only
+            out.insert(rng.randrange(1, max(2, len(out) // 2)), ["close2"])
         spec["threads"][0] = out
     return spec
 
@@ -687,6 +690,22 @@ def conn_second_session(rng, ending="drop"):
     else:
         ops += [["sleep", rng.choice([0.0, 0.2, 1.5])]]
     return {"kind": "conn", "device": dev1, "reconnect_device": dev2, "log_size": 0, "threads": [ops], "pre_register": [1], "final_wait": 0}
+
+
+def conn_dead_flood(rng):
+    """C15: hundreds of API calls on a connection whose link has failed — each a silent no-op that returns at once"""
+    dev = device(rng, drop_at=round(rng.uniform(0.05, 2.0), 3))
+    ops = burst_ops(rng, 0, rng.randint(0, 6), [0, 0.05, 0.3]) + [["sleep", 5.0], ["flood", rng.choice([120, 350, 700])], ["connected"], ["snap"], ["sleep", 1.0]]
+    return {"kind": "conn", "device": dev, "log_size": 0, "threads": [ops], "pre_register": [1], "final_wait": 0}
+
+
+def conn_relog(rng):
+    """C20 over two sessions of one connection object with different log sizes: the log of the second session is a log of size N2 of the
+    second session's wire (N2 = 0: empty)"""
+    n1, n2 = rng.choice([(5, 0), (3, 0), (0, 4), (8, 2), (2, 8)])
+    ops = burst_ops(rng, 0, rng.randint(1, 6), [0, 0.05, 0.3]) + [["sleep", 1.0], ["snap"], ["close"], ["sleep", 2.5], ["reconnect", n2]]
+    ops += burst_ops(rng, 1, rng.randint(1, 6), [0, 0.05, 0.3]) + [["sleep", 1.2], ["snap"]]
+    return {"kind": "conn", "device": device(rng), "reconnect_device": device(rng), "log_size": n1, "log_size2": n2, "threads": [ops], "pre_register": [1], "final_wait": 0}
 
 
 def conn_reconnect(rng, T):
